@@ -16,7 +16,6 @@ RULE = ('inputs are *construction programs*: instructions leaf/list/tuple/dict/s
         'visit. Oracle: memoised recursive rebuild + lock-step graph walk (types, dict key order, sequence order, set members, and the '
         'sharing relation as a bijection of node identities) + equality of the visit call logs. non-trivial = depth >= 2 and (a shared '
         'node, a cycle, or a non-default visit that dropped/rewrote something). distinct = distinct canonical JSON of the case.')
-RULE += ' Round 6: process history also includes earlier SUCCESSFUL calls with custom callbacks (enter functions treating tuple/frozenset/list/dict/set as opaque, a custom exit, research()).'
 ASSUMPTIONS = [
     'visit rewrites keep members of sets / dict keys hashable; leaves are finite scalars (no NaN)',
     'cycles closed through a tuple/frozenset (back-edge to an immutable container that is still being built) are only checked for '
